@@ -526,19 +526,33 @@ impl Scenario for C18 {
         }
         let nl = 3 + rng.below(6);
         let mut defs: Vec<Vec<f64>> = Vec::new();
+        let mut twins: Vec<(usize, usize)> = Vec::new();
         for i in 0..nl {
             let l = if i == 0 && rng.chance(1, 2) {
                 vec![]
             } else if i > 0 && rng.chance(1, 4) {
                 // the same shape somewhere else: an earlier list translated, mirrored or scaled (a result remembered per
                 // "shape" must not leak the other list's absolute coordinates)
-                let mut l = defs[rng.below(i)].clone();
+                let src = rng.below(i);
+                let mut l = defs[src].clone();
                 let (dx, dy) = (*rng.pick(&[64.0, -20.0, 0.0, 0.5, 1000.0]), *rng.pick(&[32.0, 10.0, 0.0, -0.25, -300.0]));
                 // (no scaling of the far-out lists: their cost is bounded by generation, not by the code under test)
                 let far = l.chunks_exact(3).any(|c| c[1].abs() > 1e4 || c[2].abs() > 1e4);
-                let how = if far { rng.below(3) } else { rng.below(4) };
+                let how = if far { rng.below(3) } else { rng.below(5) };
+                if how == 4 {
+                    twins.push((src, i));
+                }
                 for c in l.chunks_exact_mut(3) {
                     match how {
+                        4 => {
+                            // the same list with the sign of every zero coordinate flipped (equal under ==, not the same bits)
+                            if c[1] == 0.0 {
+                                c[1] = -c[1];
+                            }
+                            if c[2] == 0.0 {
+                                c[2] = -c[2];
+                            }
+                        }
                         0 | 1 => {
                             c[1] += dx;
                             c[2] += dy;
@@ -608,6 +622,17 @@ impl Scenario for C18 {
             }
             if rng.chance(1, 10) {
                 p.ops.push(Op::new(if rng.chance(1, 2) { "sp_clone" } else { "sp_clone_from" }, &[slot, rng.below(4) as f64]));
+            }
+            if let Some((a, b)) = twins.first().copied() {
+                if rng.chance(1, 6) {
+                    // two paths over twin lists, computed one right after the other through the same API
+                    let (len, mode) = (gen_len(&mut rng), rng.below(4) as f64);
+                    let api = *rng.pick(&["sp_curve", "sp_curve", "sp_curve_bufs", "sp_borrowed"]);
+                    p.ops.push(Op::new("sp_new", &[0.0, a as f64, len, mode, 0.0]));
+                    p.ops.push(Op::new("sp_new", &[1.0, b as f64, len, mode, 0.0]));
+                    p.ops.push(Op::new(api, &[0.0, 1.0]));
+                    p.ops.push(Op::new(api, &[1.0, 1.0]));
+                }
             }
             if rng.chance(1, 60) {
                 // fill the cache, then one real edit followed by n-1 mutable accesses that change nothing, n at the wrap
